@@ -945,6 +945,9 @@ class Node(object):
         if type(newChild) == str:
             newChild = self.ownerDocument.createTextNode(newChild)
         if newChild.nodeType == Node.DOCUMENT_FRAGMENT_NODE:
+            # resolve a negative position once, before it is advanced
+            if i < 0:
+                i = max(0, len(self) + i)
             for item in newChild:
                 self.insert(i, item, setParent=setParent)
                 i += 1
